@@ -120,7 +120,9 @@ void splinetable<Alloc>::convolve(const uint32_t dim, const double* conv_knots, 
 	//space for the new ones. Most of the old knot data we still need, so we
 	//have to make temporary buffers for it.
 	
+	try{
 	deallocate(this->coefficients,this->naxes[0]*this->strides[0]);
+	this->coefficients=NULL;
 	
 	std::unique_ptr<std::unique_ptr<double[]>[]> knots_store(new std::unique_ptr<double[]>[ndim]);
 	for (uint32_t i = 0; i < ndim; i++) {
@@ -130,6 +132,7 @@ void splinetable<Alloc>::convolve(const uint32_t dim, const double* conv_knots, 
 			std::copy(knots[i],knots[i]+nknots[i],knots_store[i].get());
 		}
 		deallocate(knots[i]-order[i],nknots[i]+2*order[i]);
+		knots[i]=nullptr;
 	}
 	
 	this->nknots[dim] = n_rho;
@@ -144,6 +147,11 @@ void splinetable<Alloc>::convolve(const uint32_t dim, const double* conv_knots, 
 		knots[i] = allocate<double>(nknots[i]+2*order[i]) + order[i];
 		double* src = (i!=dim ? knots_store[i].get() : rho);
 		std::copy(src,src+nknots[i],&knots[i][0]);
+	}
+	}catch(...){
+		//the old arrays are already gone, so the table cannot be kept
+		reset();
+		throw;
 	}
 	
 	/*
